@@ -144,7 +144,7 @@ pub fn run_c14(cx: &mut Cx) {
 /// run) has a leading zero octet; the issuer must accept that honest request like any other.
 fn grind(cx: &mut Cx, issuer: NodeId, holder: NodeId, key: Arc<KeyMat>) {
     let target = cx.run_index / 8;
-    let cap = if cx.thorough { 2500 } else { 600 };
+    let cap = if LN > 1024 { 40 } else if cx.thorough { 2500 } else { 600 }; // (seconds per generation at 2048 bits)
     let msgs = vec![gen_attr(cx.run_seed, 0, 0).value];
     let (k1, m1) = (key.clone(), msgs.clone());
     cx.step(holder, "grind-commit+prove", StepOpts::default(), move || {
